@@ -55,6 +55,10 @@ def families(tier):
     fams.append(("long-digit-run", [("%s n=%d" % (k, n), t % ("1" * n)) for n in digs for k, t in
                                     (("isotope", "[%sC]"), ("charge", "[C+%s]"), ("charge-in-chain", "[C][N-%s][O]"),
                                      ("isotope-expl", "[%sCexpl]"), ("Hcount", "[CH%s]"), ("index-ctx", "[C][Ring1][%sC]"))]))
+    from mc.props import c01
+    for fname, table, members in c01.families(tier):
+        if fname in ("rings-reaching-back-over-dot", "fragments", "rings-same-pair") and table == "default":
+            fams.append(("C01:" + fname, list(members)))
     fams.append(("oversized-index", [("n=%d" % n, "[C][C]" + "[Ring3][P][P][P]" * n) for n in (1, 5, 50, 500)]))
     return fams
 
